@@ -548,19 +548,40 @@ def check_general_stationary(acc, report=True):
     from cogent3.evolve.ns_substitution_model import GeneralStationary
 
     fails = []
-    sm = GeneralStationary(DNA.alphabet, recode_gaps=True)
+    for word in (1, 2):
+        fails += _general_stationary(acc, report, word)
+    acc.sample({"model": "GeneralStationary", "word lengths": [1, 2]}, "GS")
+    return fails
+
+
+def _general_stationary(acc, report, word):
+    from cogent3 import DNA, make_aligned_seqs, make_tree
+    from cogent3.evolve.ns_substitution_model import GeneralStationary
+
+    fails = []
+    if word == 1:
+        sm = GeneralStationary(DNA.alphabet, recode_gaps=True)
+        pis = [{"T": 0.25, "C": 0.25, "A": 0.25, "G": 0.25}, {"T": 0.1, "C": 0.2, "A": 0.3, "G": 0.4}]
+        values = (1e-6, 0.05, 3.0, 20.0, 1e6)
+    else:
+        # a word alphabet: the instantaneous mask is sparse (one position changes at a time); motif probs over the words
+        sm = GeneralStationary(DNA.alphabet.get_word_alphabet(2), recode_gaps=True, mprob_model="tuple")
+        words = [a + b for a in "TCAG" for b in "TCAG"]
+        sk = [1.0 + (i % 5) for i in range(16)]
+        pis = [{w: 1 / 16 for w in words}, {w: v / sum(sk) for w, v in zip(words, sk)}]
+        values = (0.05, 3.0)
     pars = list(sm.get_param_list())
     aln = make_aligned_seqs({"a": "ACGTAC", "b": "ACGAAC", "c": "ATGTAG"}, moltype="dna")
-    pis = [{"T": 0.25, "C": 0.25, "A": 0.25, "G": 0.25}, {"T": 0.1, "C": 0.2, "A": 0.3, "G": 0.4}]
     vectors = [{q: 1.0 for q in pars}]
     for pname in pars:
-        for v in (1e-6, 0.05, 3.0, 20.0, 1e6):
+        for v in values:
             vectors.append({q: (v if q == pname else 1.0) for q in pars})
-    for p1, p2 in itertools.combinations(pars, 2):
-        vectors.append({q: (5.0 if q == p1 else 0.2 if q == p2 else 1.0) for q in pars})
+    if word == 1:
+        for p1, p2 in itertools.combinations(pars, 2):
+            vectors.append({q: (5.0 if q == p1 else 0.2 if q == p2 else 1.0) for q in pars})
     for pi in pis:
         for vec in vectors:
-            case = {"model": "GS", "pi": pi, "params": vec}
+            case = {"model": "GS", "word_length": word, "pi": pi, "params": vec}
             acc.case(case)
             try:
                 lf = sm.make_likelihood_function(make_tree("(a:0.1,b:0.7,c:2.5)"))
@@ -599,7 +620,6 @@ def check_general_stationary(acc, report=True):
                     fails.append((sig, {"value": val}))
                 if report:
                     acc.fail(sig, case, {"value": val})
-    acc.sample({"model": "GeneralStationary", "vectors": len(vectors), "motif prob choices": len(pis)}, "GS")
     return fails
 
 
